@@ -326,3 +326,33 @@ def asub_raises(ctx, st, exc):
 
 UNITS.append(Unit("C17", "jsonargparse._core:ArgumentParser.add_subcommands", asub_setup, asub_post, asub_raises, expect_cover=("return", "raise:ArgumentError"),
                   trusted=["argparse.add_subparsers (super()) creates the action or refuses through parser.error", "get_env_var: its own unit"]))
+
+
+# ------------------------------------------------------------------------------------- get_subcommand (exactly one)
+def gs1_setup(ctx):
+    fate = ["none", "one", "several"][ctx.choose(3, "get_subcommands-returns")]
+    names, parsers = ["fit", "test"], [Rec("fit parser"), Rec("test parser")]
+    ret = {"none": (None, None), "one": (names[:1], parsers[:1]), "several": (list(names), list(parsers))}[fate]
+    parser, cfg = Rec("ArgumentParser"), Rec("Namespace")
+    fail = z3.Bool("fail_no_subcommand")
+    prefix_sel = ["given", "omitted"][ctx.choose(2, "prefix")]
+    env = {"parser": parser, "cfg": cfg, "fail_no_subcommand": fail}
+    if prefix_sel == "given":
+        env["prefix"] = "outer."
+    calls = {"_ActionSubCommands.get_subcommands": lambda c, a, k: (c.event("get_subcommands", a[0], a[1], dict(k)), ret)[1]}
+    return Setup(env=env, calls=calls, data=dict(fate=fate, ret=ret, parser=parser, cfg=cfg, fail=fail, prefix="outer." if prefix_sel == "given" else ""))
+
+
+def gs1_post(ctx, st, result):
+    d = st.data
+    want = (None, None) if d["fate"] == "none" else (d["ret"][0][0], d["ret"][1][0])
+    ctx.oblige("post", f"exactly-one-subcommand-is-selected:the-first-of-what-get_subcommands-determines(or none)[{d['fate']}]", isinstance(result, tuple) and len(result) == 2 and result[0] == want[0] and result[1] is want[1])
+    ev = [e for e in ctx.events if e[0] == "get_subcommands"]
+    ctx.oblige("post", "determined-on-this-parser-and-configuration,with-the-caller's-prefix-and-failure-mode", len(ev) == 1 and ev[0][1] is d["parser"] and ev[0][2] is d["cfg"] and ev[0][3] == {"prefix": d["prefix"], "fail_no_subcommand": d["fail"]})
+
+
+def gs1_raises(ctx, st, exc):
+    ctx.oblige("raises", f"no-own-exception(got {exc.cls}@{exc.origin})", False)
+
+
+UNITS.append(Unit("C17", "jsonargparse._actions:_ActionSubCommands.get_subcommand", gs1_setup, gs1_post, gs1_raises, trusted=["get_subcommands: its own unit"]))
